@@ -256,6 +256,7 @@ func c04WriteFaults(t *testing.T, c *ev.Collector) {
 				c.Case(key, true)
 				Bubble(t, func() {
 					var sendErrs []error
+					inSend, failedInSend := -1, -1 // index of the Send in progress / of the one whose write failed
 					sent := [][]byte{}
 					var tr *memhttp.Transport
 					h := NewHandler(kind, func(ctx context.Context, s HStream) error {
@@ -270,7 +271,9 @@ func c04WriteFaults(t *testing.T, c *ev.Collector) {
 						}
 						for i := 0; i < n; i++ {
 							p := Payload(20+i, byte(0x41+i))
+							inSend = i
 							err := s.Send(&BV{Value: p})
+							inSend = -1
 							sendErrs = append(sendErrs, err)
 							if err != nil {
 								return err
@@ -281,7 +284,7 @@ func c04WriteFaults(t *testing.T, c *ev.Collector) {
 					}, connect.WithCompressMinBytes(1<<20))
 					fw := &failingWriter{after: k}
 					tr = &memhttp.Transport{Handler: h, Proto: 2, SyncCloseReq: true}
-					fw.onFail = func() { tr.BreakLast(memhttp.ErrTransport) }
+					fw.onFail = func() { failedInSend = inSend; tr.BreakLast(memhttp.ErrTransport) }
 					tr.WrapRespWriter = func(w http.ResponseWriter) http.ResponseWriter { fw.ResponseWriter = w; return fw }
 					cl := NewClient(tr, Cfg{Proto: p, Comp: CompNone, Kind: kind, HTTP: 2})
 					var res CallResult
@@ -315,15 +318,10 @@ func c04WriteFaults(t *testing.T, c *ev.Collector) {
 						c.Violation("TestC04", "delivered-prefix", "not-a-prefix", tags, key, "%s: client got %s, handler sent %s", key, shortMsgs(res.Msgs), shortMsgs(sent))
 					}
 					// the Send whose write failed must report it
-					failedSendSeen := false
-					for _, e := range sendErrs {
-						if e != nil {
-							failedSendSeen = true
-						}
-					}
-					expectSendFailure := kind.ServerStreams() // single-response kinds send from the framework, after user code returned
-					if expectSendFailure && !failedSendSeen && len(sendErrs) > 0 && k < 2*len(sendErrs) {
-						c.Violation("TestC04", "write-failure-reported", "swallowed", tags, key, "%s: write %d failed inside a Send but every Send returned nil", key, k+1)
+					// (single-response kinds send from the framework, after user code returned;
+					// how many writes a Send needs is the library's business)
+					if kind.ServerStreams() && failedInSend >= 0 && failedInSend < len(sendErrs) && sendErrs[failedInSend] == nil {
+						c.Violation("TestC04", "write-failure-reported", "swallowed", tags, key, "%s: write %d failed inside Send #%d, which returned nil", key, k+1, failedInSend+1)
 					}
 					c.Outcome("failed:" + CodeOfErr(res.Err).String())
 				})
